@@ -35,6 +35,14 @@
 #include <string.h>
 #include <stdlib.h>
 
+/** Cache key flag for pages read while excluded pages are zero-filled.
+ * Page addresses are page-aligned and the address space takes the two
+ * low bits, so this bit is free. Pages read with and without
+ * @c file.zero_excluded must not share cache entries, because the
+ * content (or even the existence) of an excluded page depends on it.
+ */
+#define CACHE_KEY_ZERO_EXCLUDED	((cache_key_t)4)
+
 /** Get a page from the default cache.
  *
  * @param pio  Page I/O control.
@@ -55,7 +63,9 @@ cache_get_page(struct page_io *pio, read_page_fn *fn)
 	pio->chunk.nent = 1;
 	pio->chunk.embed_fces->cache = ctx->shared->cache;
 	entry = cache_get_entry(pio->chunk.embed_fces->cache,
-				pio->addr.addr | pio->addr.as);
+				pio->addr.addr | pio->addr.as |
+				(get_zero_excluded(ctx)
+				 ? CACHE_KEY_ZERO_EXCLUDED : 0));
 	mutex_unlock(&ctx->shared->cache_lock);
 	if (!entry)
 		return set_error(ctx, KDUMP_ERR_BUSY,
